@@ -4,4 +4,5 @@ CONSTANTS
   CfgSet <- AllCfgs
 VIEW NoSched
 INVARIANTS InBounds Disjoint Tiling RowOrder EachOnce HeldDistinct
+PROPERTY Terminates
 CHECK_DEADLOCK FALSE
